@@ -60,6 +60,9 @@ fn enc_err(e: EncryptError) -> Res {
         EncryptError::IOWrite(_) => Res::Err(ErrKind::IOWrite, m),
         EncryptError::UnexpectedData => Res::Err(ErrKind::UnexpectedData, m),
         EncryptError::Other(_) => Res::Err(ErrKind::Other, m),
+        // a variant added by a change to /repo must not stop the harness from compiling
+        #[allow(unreachable_patterns)]
+        _ => Res::Err(ErrKind::Other, m),
     }
 }
 
@@ -72,6 +75,8 @@ pub fn dec_err(e: DecryptError) -> Res {
         DecryptError::ChunkLen => Res::Err(ErrKind::ChunkLen, m),
         DecryptError::ChaPolyDecrypt => Res::Err(ErrKind::Auth, m),
         DecryptError::Other(_) => Res::Err(ErrKind::Other, m),
+        #[allow(unreachable_patterns)]
+        _ => Res::Err(ErrKind::Other, m),
     }
 }
 
